@@ -1,4 +1,5 @@
 import StunVerif.Props.C05
+import StunVerif.Props.SrcFnAgent
 #print axioms StunVerif.C05.step_lifecycle
 #print axioms StunVerif.C05.out_iff_live
 #print axioms StunVerif.C05.exactly_once
@@ -10,3 +11,14 @@ import StunVerif.Props.C05
 #print axioms StunVerif.C05.keys_nodup
 #print axioms StunVerif.C05.frame
 #print axioms StunVerif.C05.eventually_ends
+#print axioms StunVerif.SrcFnAgent.src_reqPoll
+#print axioms StunVerif.SrcFnAgent.src_validatedPeer
+#print axioms StunVerif.SrcFnAgent.src_takeOutstanding
+#print axioms StunVerif.SrcFnAgent.remove_of_lookup_none
+#print axioms StunVerif.SrcFnAgent.src_handleStun
+#print axioms StunVerif.SrcFnAgent.src_send_request
+#print axioms StunVerif.SrcFnAgent.src_send_other
+#print axioms StunVerif.SrcFnAgent.src_cancel
+#print axioms StunVerif.SrcFnAgent.src_cancelRetransmissions
+#print axioms StunVerif.SrcFnAgent.foldl_add_eq_sum
+#print axioms StunVerif.SrcFnAgent.src_configureTimeout
